@@ -23,7 +23,7 @@ func feederFuncs(w *World, r *Run, rule, fp string) (*feedFuncs, bool) {
 	}
 	opaque := []string{fnRun, fnFeedOnce, pClient + ".NewSumDB"}
 	for _, f := range w.prodFns() {
-		if pkgPathOf(f) == pkgPathOf(fn) && f != fn && f.Parent() == nil && !reachesCallee(f, 0, fnRun, fnFeedOnce) {
+		if pkgPathOf(f) == pkgPathOf(fn) && f != fn && f.Parent() == nil && !reachesCallee(f, 0, fnRun, fnFeedOnce) && !returnsFunc(f) {
 			opaque = append(opaque, funcNameOrSSA(f))
 		}
 	}
